@@ -17,6 +17,9 @@ def sig_of(rej, scn):
             sig += ":nocursor"
         if m.get("prevw") != m.get("w"):
             sig += ":resized"
+        # the TextField's cursor is visible only through the drawn column: name the new two-stage inputs
+        if rej.get("k") in ("insjoin", "pastejoin", "pastectl"):
+            sig += ":after-" + rej["k"]
     elif why in ("text", "cursor", "change", "submit"):
         sig += ":" + str(rej.get("k"))
     return sig
@@ -91,9 +94,14 @@ def main(c):
         "grapheme segmentation/widths of the observed text come from uniseg's Graphemes iterator; word class = base "
         "code point is a letter or digit (Go unicode tables); trusted base",
         "alphabet {a, b, 7, ideograph, decomposed e-acute, space, hyphen, emoji+modifier, flag}: no inserted cluster "
-        "merges with a neighbour",
-        "keys are the vaxis.Key values the legacy decoder delivers (press events; one key event per typed/pasted grapheme)",
-        "TextField exposes no cursor index: its cursor is observed through the drawn cursor column",
+        "merges with a neighbour, except the joining characters (combining mark, emoji modifier, voiced sound mark) "
+        "typed or pasted directly behind their base (insjoin/pastejoin: the resulting cluster is a logged fact)",
+        "keys are the vaxis.Key values the legacy decoder delivers (press events; one key event per typed/pasted grapheme; "
+        "a pasted C0 byte/DEL arrives as the key it encodes - Enter, Ctrl+a, BackSpace ... - with EventType paste and no text)",
+        "a pasted character that cannot be displayed (C0, DEL) may be kept or dropped, nothing else may happen; a text "
+        "holding one has no display width (cursor column not judged); TAB and LF are not generated",
+        "TextField exports no cursor accessor: its private cursor index (the field the property names) is read "
+        "through reflection by the driver, next to the drawn cursor column; if no such field exists only the column is judged",
         "'the text fits the widget' = prompt width + text width + the cursor cell <= window width",
         "Enter: TextField submits and clears (change callback unconstrained for that event); textinput does not bind Enter",
         "textinput's drawn cursor is read through the verif hook Vaxis.VerifRequestedCursor",
@@ -104,6 +112,10 @@ def main(c):
         c.cov["models"][-1]["expected_violation"] = True
         if ok:
             c.notes.append("MC_LineEdit_orig.cfg unexpectedly passed: the stale-count transcription is no longer refuted")
+        ok, _ = c.model_check(specs, "MC_LineEdit.tla", "MC_LineEdit_pasteexec.cfg", workers=4, expect_violation=True)
+        c.cov["models"][-1]["expected_violation"] = True
+        if ok:
+            c.notes.append("MC_LineEdit_pasteexec.cfg unexpectedly passed: executing pasted control characters is no longer refuted")
     lap("model_check")
     td = c.drive(drv, "c17", replay=c.replay)
     lap("drive")
@@ -137,7 +149,9 @@ def main(c):
     return c.finish(
         rule="scenario = (widget, prompt, window width, command history); bounded-exhaustive: every history of length "
              "1..2 (quick) / 1..4 (thorough) over the widget's command alphabet (insert narrow/wide/two-codepoint/blank "
-             "grapheme, every navigation and deletion key, Enter or paste) from 5 starting contents/cursors, window "
-             "widths cycling 0..40; seeded random histories of 60..300 commands incl. method calls, unbound keys, key "
-             "releases, pastes, resizes; hand-written corners. Every command is one event checked by LineEdit!Next "
+             "grapheme, every navigation and deletion key, Enter or paste; TextField: a paste holding a control character) "
+             "from 5 starting contents/cursors, window widths cycling 0..40; prefixed: from the same starts a base plus a "
+             "typed/pasted joining character (4 pairs x 3 forms) or a paste holding one of 11 control characters, then "
+             "every history of length 0..1 (quick) / 0..2 (thorough); seeded random histories of 60..300 commands incl. method calls, unbound keys, key "
+             "releases, pastes (a third with control characters), joining characters, resizes; hand-written corners. Every command is one event checked by LineEdit!Next "
              "(text, cursor), ChangeOK/SubmitOK (callbacks) and ColOK (drawn cursor); distinct = distinct descriptor")
